@@ -30,6 +30,9 @@ CLAIMED = {
  "C03": dict(technique="static analysis: wire-signature extraction from the type-checked syntax tree of every encoder/decoder pair and comparison after normalisation; getter/setter offset+width agreement; shift/mask pairs; dominance order of sections vs read order; cache<->loader pairing; field-set comparison of the two construction paths; alias rule for pooled buffers; who-may-read rule for the raw MinTIDs column; lossless cache keys",
              text="What the sealer writes and what the sealed loaders read are compared structurally for every table of the index file, and the two ways of building a Sealed fraction are compared field by field: a disagreement makes a sealed/reloaded fraction answer differently from the active one. Value-level logic at block borders is not decided.",
              note="Trusted: go/types, go/ssa; the frozen pair table in checker/internal/props/c03.go; byte-slice payloads (BYTES) are not compared.", ref="§3 C03"),
+ "C16": dict(technique="static analysis: error-flow and dominance rules for shard error accounting, path-sensitive simulation (PATHSIM) that a non-nil tier error never ends in a nil return, sibling checklist over the four proxy handlers, enum coverage of store answer codes, dominance/loop-shape rules for the merged fetch iterator",
+             text="Every path of the proxy read code is checked for the bookkeeping that makes an incomplete answer visible: collected shard errors decide completeness, the partial error survives Ingestor.Search and reaches all four handlers, the fetch iterator pairs documents with ids by equality. The content of the merged result is not decided.",
+             note="Trusted: go/ssa; PATHSIM bounds; errors.Is treated as an unknown boolean.", ref="§3 C16"),
 }
 
 NOT_YET = "check not built yet in this round (planned in DESIGN.md §3); nothing is claimed for it"
